@@ -24,7 +24,7 @@
     the tables after the step. *)
 From Nexus Require Import Router.Realm Router.RealmProofs Router.RealmMetaProofs Router.RealmLeave.
 From Nexus Require Import Router.BrokerWf Router.DealerProofs Router.DealerWf.
-From Nexus Require Import Router.RealmWf Router.RealmStep Router.RealmC05.
+From Nexus Require Import Router.RealmWf Router.RealmStep Router.RealmC05 Router.RealmIdle.
 
 (** ** The invariant holds initially, is preserved by every step, hence holds of
     every reachable realm *)
@@ -155,20 +155,35 @@ Theorem kill_sessions_exact : forall sids r g,
 Proof. exact RealmLeave.kill_sessions_exact. Qed.
 Print Assumptions kill_sessions_exact.
 
-(** ** empty_when_idle — PARTIAL.  Proved: once no session is attached, the
-    per-session tables (testaments, broker session index, dealer callee index up
-    to the meta session's own entry) and all three call tables are empty, no
-    subscription has a subscriber and every registration has the meta session
-    as its only callee.  NOT proved (TODO): that the remaining subscriptions
-    are exactly the configured history subscriptions and the remaining
-    registrations exactly the meta procedures, i.e.
-      forall cfg ops, Forall op_ok ops -> k0 cfg + length ops <= max_idN ->
-        r_clients (fst (run (init_realm cfg) ops)) = [] ->
-        sizes (fst (run (init_realm cfg) ops)) = sizes (init_realm cfg).
-    Missing for it: "a subscription without subscribers is a configured history
-    subscription, and those are never deleted" (BrokerHist.v has the pieces) and
-    "the registrations of the meta session are exactly r_metaprocs".  The full
-    equation is checked on a concrete history in [c05_sizes_example]. *)
+(** ** empty_when_idle: for every history from [init_realm] (below the id
+    wrap-around), once no session is attached ALL table sizes are back to those
+    of the initial realm: [sizes] lists clients, testaments, the three broker
+    topic maps, subscriptions, the broker's session index, history stores, the
+    three dealer procedure maps, registrations, the three call tables and the
+    dealer's callee index.  What remains are the configured history
+    subscriptions and the meta session's registrations.  This is the "no
+    growth" statement: failed and refused requests included, nothing
+    accumulates. *)
+Theorem empty_when_idle : forall cfg ops,
+    Forall op_ok ops -> k0 cfg + N.of_nat (List.length ops) <= max_idN ->
+    r_clients (fst (run (init_realm cfg) ops)) = [] ->
+    sizes (fst (run (init_realm cfg) ops)) = sizes (init_realm cfg).
+Proof. exact RealmIdle.empty_when_idle. Qed.
+Print Assumptions empty_when_idle.
+
+(** the same for any two idle well-formed realms of one configuration *)
+Theorem idle_sizes : forall r0 r,
+    realm_wf r0 -> realm_wf r -> r_clients r0 = [] -> r_clients r = [] ->
+    r_broker r0 = broker0 (r_cfg r) -> r_dealer r0 = dealer0 (r_cfg r) ->
+    sizes r = sizes r0.
+Proof. exact RealmIdle.idle_sizes. Qed.
+Print Assumptions idle_sizes.
+
+Theorem step_cfg : forall r o, r_cfg (fst (step r o)) = r_cfg r.
+Proof. exact RealmIdle.step_cfg. Qed.
+Print Assumptions step_cfg.
+
+(** what an idle realm looks like, table by table *)
 Theorem empty_when_idle_partial : forall r,
     realm_wf r -> r_clients r = [] ->
     r_testaments r = [] /\ b_sess (r_broker r) = [] /\
